@@ -68,11 +68,17 @@ fn main() {
         let pid = args.get(1).cloned().unwrap_or_default().to_uppercase();
         let mut run = Run::new(&pid, tier);
         let mut builds = vec![];
+        let mut wall = 0.0f64;
         for f in args.iter().skip(2).filter(|a| !a.starts_with("--") && *a != "quick" && *a != "thorough") {
             let s = std::fs::read_to_string(f).unwrap_or_else(|_| common::machinery_failure(&format!("cannot read partial result {}", f)));
             let v: serde_json::Value = serde_json::from_str(&s).unwrap_or_else(|_| common::machinery_failure("partial result does not parse"));
             builds.push(v["build"].clone());
+            wall += v["wall_s"].as_f64().unwrap_or(0.0);
             run.absorb_child_json(&v);
+        }
+        // the merged evidence reports the time the configurations took together
+        if let Some(t) = run.start.checked_sub(std::time::Duration::from_secs_f64(wall)) {
+            run.start = t;
         }
         run.set("builds", serde_json::Value::Array(builds));
         run.finish();
@@ -90,6 +96,7 @@ fn main() {
         // one build configuration of a multi-build check: hand the result to the merging run
         let mut v = run.to_child_json();
         v["build"] = serde_json::json!({"features": shadowvm::feature_set(), "placement": vm::PLACEMENT});
+        v["wall_s"] = serde_json::json!(run.start.elapsed().as_secs_f64());
         for x in v["violations"].as_array_mut().into_iter().flatten() {
             let sig = format!("{}[{}]", x["signature"].as_str().unwrap_or(""), build_tag());
             x["case"]["build"] = serde_json::json!(build_tag());
